@@ -46,6 +46,13 @@ def check(D, op, types, g, extra=None):
     got = np.array(rg.data)
     if (r0.k, r0.parity) != (rg.k, rg.parity):
         return "declared types of op(a) and op(g.a) differ", call
+    k0, p0 = types[0]
+    rule = {"add": (k0, p0), "sub": (k0, p0), "smul": (k0, p0), "rsmul": (k0, p0), "norm": (0, 0), "transpose": (k0, p0),
+            "contract": (k0 - 2, p0), "multicontract": (k0 - 2, p0), "levi_civita": (k0 - D + 2, (p0 + 1) % 2)}.get(op)
+    if op in ("mul", "convolve"):
+        rule = (types[0][0] + types[1][0], (types[0][1] + types[1][1]) % 2)
+    if rule is not None and (r0.k, r0.parity) != rule:
+        return f"declared (k,parity) = ({r0.k},{r0.parity}) but the typing rule gives {rule}", call
     if got.shape != exp.shape or not np.allclose(got, exp, rtol=1e-4, atol=1e-4):
         return f"op(g.a,..) != g.op(a,..) with the declared type (k,parity)=({r0.k},{r0.parity})", call
     return None, call
